@@ -391,8 +391,22 @@ func ruleAsyncFlag(c *Ctx, rule string) {
 	}
 	var rec []*ssa.Call
 	for _, cs := range callsIn(fn) {
-		if cs.common.StaticCallee() == fn && cs.value() != nil {
+		if cs.value() == nil {
+			continue
+		}
+		cal := cs.common.StaticCallee()
+		if cal == fn {
 			rec = append(rec, cs.value())
+			continue
+		}
+		// the recursive step behind a private helper (parse the inner type, wrap the error): the helper calls back into fn
+		if cal != nil && cal.Pkg == fn.Pkg && len(cal.Blocks) > 0 && cal.Signature.Results().String() == fn.Signature.Results().String() {
+			for _, cs2 := range callsIn(cal) {
+				if cs2.common.StaticCallee() == fn {
+					rec = append(rec, cs.value())
+					break
+				}
+			}
 		}
 	}
 	c.floor(rule, "recursive unwrapping calls in parseProviderType", len(rec), 2)
